@@ -70,6 +70,27 @@ type Ctx struct {
 }
 
 // load type-checks /repo (or an overlay variant) and builds SSA for the repo packages.
+// scratchModfile copies dir/go.mod and go.sum into a fresh temporary directory and returns the copy's path.
+func scratchModfile(dir string) (string, func()) {
+	mod, err := os.ReadFile(filepath.Join(dir, "go.mod"))
+	if err != nil {
+		return "", nil
+	}
+	tmp, err := os.MkdirTemp("", "verifmod.")
+	if err != nil {
+		return "", nil
+	}
+	cleanup := func() { os.RemoveAll(tmp) }
+	if err := os.WriteFile(filepath.Join(tmp, "go.mod"), mod, 0o644); err != nil {
+		cleanup()
+		return "", nil
+	}
+	if sum, err := os.ReadFile(filepath.Join(dir, "go.sum")); err == nil {
+		os.WriteFile(filepath.Join(tmp, "go.sum"), sum, 0o644)
+	}
+	return filepath.Join(tmp, "go.mod"), cleanup
+}
+
 func load(dir string, overlay map[string][]byte, goos string) (*Ctx, error) {
 	env := append(os.Environ(), "GOFLAGS=-mod=mod", "GOPROXY=off", "GOWORK=off")
 	if goos != "" {
@@ -81,6 +102,13 @@ func load(dir string, overlay map[string][]byte, goos string) (*Ctx, error) {
 		Env:     env,
 		Overlay: overlay,
 		Tests:   false,
+	}
+	// The go command may rewrite go.mod under -mod=mod (an in-memory variant that imports a package of an indirect
+	// dependency directly makes it move the requirement): give it a scratch copy, so that analysing never writes
+	// into the analysed tree.
+	if mf, cleanup := scratchModfile(dir); mf != "" {
+		defer cleanup()
+		cfg.BuildFlags = []string{"-modfile=" + mf}
 	}
 	pkgs, err := packages.Load(cfg, "./...")
 	if err != nil {
@@ -161,6 +189,16 @@ func (c *Ctx) collectFns() {
 		}
 	}
 	buildSites(scan)
+	// memo tables keyed by objects of a loaded program: dropped with the previous program, otherwise the thorough
+	// tier (hundreds of in-memory variants in one process) keeps every program alive
+	blockingQueryMemo = map[*ssa.Function]int{}
+	c06lockMemo = map[c06lockMemoKey]bool{}
+	c04builders = map[*ssa.Program]*c04builder{}
+	c14stateCache = map[*Ctx]*c14state{}
+	c14dynCache = map[*Ctx]*c14dynIndex{}
+	c14dynSitesCache = map[*Ctx]map[*ssa.Function][]ssa.CallInstruction{}
+	c14fnsCache = map[*Ctx][]*ssa.Function{}
+	c17phiBusy = map[c17phiKey]bool{}
 	gAddrTaken = map[*ssa.Function]bool{}
 	gInvoked = map[string]bool{}
 	gGlobalStores = map[*ssa.Global][]*ssa.Store{}
